@@ -139,4 +139,56 @@ def pixelR (p : Nat) (row : List Int) (start : Nat) (ks : List Int) : List Int :
   let initial := wrap32 (2 ^ (p - 1))
   (loopR row ks start [initial, initial, initial, initial]).map fun v => packus8 (packs16 (v / 2 ^ p))
 
+/-! ### `horiz_convolution_one_row` of src/convolution/u8x4/avx2.rs
+
+    With 8 or more coefficients the kernel works in a 256-bit register: a pair `(lo, hi)` of 128-bit halves, each
+    an `i32x4` accumulator started at `1 << (PRECISION - 2)`; `_mm256_shuffle_epi8` shuffles each half with its half of
+    the mask, `madd` / `add` act per half (Intel's definitions); at the end the halves are added.  The 8-step gives
+    pixels `x .. x+3` to the low and `x+4 .. x+7` to the high half, the 4-step pixels `x, x+1` and `x+2, x+3`.  Fewer than
+    8 coefficients, and what is left after the wide steps, go through the 128-bit 2- and 1-steps. -/
+
+def acc8A (s : List Int × List Int) (row : List Int) (x : Nat) (k8 : List Int) : List Int × List Int :=
+  let ks := kBytes k8                         -- `_mm256_insertf128_si256::<1>(cast(tmp), tmp)`: both halves
+  let lo := srcBytes row x 4                  -- `loadu_si256(src_row, x)`
+  let hi := srcBytes row (x + 4) 4
+  let s := (add32 s.1 (madd (pshufb lo u8x4_avx2_one_sh1_lo) (pshufb ks u8x4_avx2_one_sh2_lo)),
+            add32 s.2 (madd (pshufb hi u8x4_avx2_one_sh1_hi) (pshufb ks u8x4_avx2_one_sh2_hi)))
+  (add32 s.1 (madd (pshufb lo u8x4_avx2_one_sh3_lo) (pshufb ks u8x4_avx2_one_sh4_lo)),
+   add32 s.2 (madd (pshufb hi u8x4_avx2_one_sh3_hi) (pshufb ks u8x4_avx2_one_sh4_hi)))
+
+def acc4A (s : List Int × List Int) (row : List Int) (x : Nat) (k4 : List Int) : List Int × List Int :=
+  let ks := low64 (kBytes k4)                 -- `loadl_epi64(k, 0)` in both halves
+  let src := srcBytes row x 4                 -- `loadu_si128(src_row, x)` in both halves
+  (add32 s.1 (madd (pshufb src u8x4_avx2_one_sh5_lo) (pshufb ks u8x4_avx2_one_sh6_lo)),
+   add32 s.2 (madd (pshufb src u8x4_avx2_one_sh5_hi) (pshufb ks u8x4_avx2_one_sh6_hi)))
+
+def acc2A (s row : List Int) (x : Nat) (k0 k1 : Int) : List Int :=
+  add32 s (madd (pshufb (low64 (srcBytes row x 2)) u8x4_avx2_one_sh7) (clone4 (kBytes [k0, k1])))
+
+/-- `for k in coeffs_by_8` -/
+def loop8A (row : List Int) (ks : List Int) (x : Nat) (s : List Int × List Int) : (List Int × List Int) × Nat × List Int :=
+  if h : 8 ≤ ks.length then loop8A row (ks.drop 8) (x + 8) (acc8A s row x (ks.take 8))
+  else (s, x, ks)
+termination_by ks.length
+decreasing_by simp only [List.length_drop]; omega
+
+/-- `for k in coeffs_by_2`, then `reminder1.first()` -/
+def loop2A (row : List Int) : List Int → Nat → List Int → List Int
+  | k0 :: k1 :: rest, x, s => loop2A row rest (x + 2) (acc2A s row x k0 k1)
+  | [k], x, s => acc1 s row x k
+  | [], _, s => s
+
+def pixelA (p : Nat) (row : List Int) (start : Nat) (ks : List Int) : List Int :=
+  let (sss, x, coeffs) :=
+    if ks.length < 8 then
+      let i := wrap32 (2 ^ (p - 1))
+      ([i, i, i, i], start, ks)
+    else
+      let h := wrap32 (2 ^ (p - 2))
+      let r := loop8A row ks start ([h, h, h, h], [h, h, h, h])
+      let (s, x, rest) := (r.1, r.2.1, r.2.2)
+      let (s, x, rest) := if rest.length ≥ 4 then (acc4A s row x (rest.take 4), x + 4, rest.drop 4) else (s, x, rest)
+      (add32 s.1 s.2, x, rest)
+  (loop2A row coeffs x sss).map fun v => packus8 (packs16 (v / 2 ^ p))
+
 end Fir.SimdU8x4
